@@ -4,9 +4,10 @@
    `styles_along d t chain` is the style map M builds for the element at the head of `chain` (its ancestors follow,
    the region last); C03_snapshot_styles ties it to the snapshot tree.
    Proved for EVERY document, time and ancestor chain, for ALL 36 properties (C03_all_properties): the cascade of the
-   24 plain properties, tts:fontSize (incl. ruby halving), tts:textDecoration (merged per component), tts:direction
+   21 plain properties, tts:fontSize (incl. ruby halving), tts:textDecoration (merged per component), tts:direction
    (writing-mode semantics on regions), tts:writingMode (the region's), tts:extent, tts:origin / tts:position,
-   tts:padding, tts:lineHeight, tts:linePadding, tts:rubyReserve, tts:textOutline, tts:textShadow and tts:textEmphasis
+   tts:padding, tts:disparity (computed since the repair `fix: tts:disparity was never computed`: resolved like a
+   width, right after the font size), tts:lineHeight, tts:linePadding, tts:rubyReserve, tts:textOutline, tts:textShadow and tts:textEmphasis
    (the latter since the repair of _get_writing_mode's use: the region's writing mode is carried down).
    C03_snapshot_values lifts this to every element of every snapshot `isd d t` (rose-tree induction over _process_element).
    The only hypothesis beyond the shape of the chain is `td_typed`: the tts:textDecoration values in effect are
@@ -65,6 +66,11 @@ Theorem C03_padding : forall d t chain st, chain_ok chain = true -> styles_along
   sget st p_Padding = padding d t chain.
 Proof. exact styles_along_padding. Qed.
 
+(* disparity: % of the root container width, c / px of the cell / pixel width, em of the element's own computed font size *)
+Theorem C03_disparity : forall d t chain st, chain_ok chain = true -> styles_along d t chain = Ok st ->
+  sget st p_Disparity = disparity d t chain.
+Proof. exact styles_along_disparity. Qed.
+
 (* lineHeight, linePadding, rubyReserve, textOutline, textShadow, textEmphasis: specified here -> resolved against the
    element's own computed font size / colour / region writing mode; otherwise the parent's computed value *)
 Theorem C03_font_relative : forall d t p, In p fr_props ->
@@ -103,6 +109,6 @@ Proof. exact ex_snap_hypotheses. Qed.
 Print Assumptions C03_length_resolution.  Print Assumptions C03_plain_value.  Print Assumptions C03_plain_is_spec.
 Print Assumptions C03_font_size.  Print Assumptions C03_text_decoration.  Print Assumptions C03_direction.
 Print Assumptions C03_writing_mode.  Print Assumptions C03_extent.  Print Assumptions C03_origin_position.
-Print Assumptions C03_padding.  Print Assumptions C03_font_relative.  Print Assumptions C03_all_properties.
+Print Assumptions C03_padding.  Print Assumptions C03_disparity.  Print Assumptions C03_font_relative.  Print Assumptions C03_all_properties.
 Print Assumptions C03_snapshot_styles.  Print Assumptions C03_snapshot_values.  Print Assumptions C03_hypotheses_satisfiable.
 Print Assumptions C03_snapshot_hypotheses_satisfiable.
